@@ -243,6 +243,9 @@ func MakePkt(kind string) *astits.Packet {
 			pl[i] = 0xff
 		}
 		return &astits.Packet{Header: astits.PacketHeader{PID: 0x1fff, HasPayload: true}, Payload: pl}
+	case "ownpid": // a caller-built packet on a PID the Muxer itself writes (pass-through: the Muxer's own counter is untouched)
+		pl := bytes.Repeat([]byte{0x3c}, 184)
+		return &astits.Packet{Header: astits.PacketHeader{PID: 0x100, HasPayload: true, ContinuityCounter: 9}, Payload: pl}
 	case "afonly":
 		return &astits.Packet{Header: astits.PacketHeader{PID: 0x300, HasAdaptationField: true, ContinuityCounter: 3},
 			AdaptationField: &astits.PacketAdaptationField{HasPCR: true, PCR: cr(12345, 6), StuffingLength: 176}}
